@@ -1,6 +1,7 @@
 package method_evaluator
 
 import (
+	"strings"
 	"ti/base"
 	"ti/builtin"
 	"ti/context"
@@ -22,7 +23,12 @@ func VerifCallArgs(n int) {
 	rest := verifapi.Concrete(verifapi.Int("rest", 0, 1))
 	p := verifapi.Concrete(verifapi.Int("p", 0, 1))
 	kw := verifapi.Concrete(verifapi.Int("kw", 0, 2))
-	kwNames := []string{"ka:", "kb:"}
+	// keyword names: plain; one a prefix of the other followed by a digit (both declaration
+	// orders); one a proper prefix of the other. The extra sets are only combined with the
+	// shapes without optional / rest parameters (where the pinned tree has no known finding).
+	ns := verifapi.Concrete(verifapi.Int("kwnames", 0, 3))
+	verifapi.Assume(ns == 0 || (kw == 2 && o == 0 && rest == 0))
+	kwNames := [][]string{{"ka:", "kb:"}, {"x:", "x2:"}, {"x2:", "x:"}, {"pin:", "pi:"}}[ns]
 
 	var decl []base.T
 	var reqK, optK, trailK []int
@@ -81,6 +87,9 @@ func VerifCallArgs(n int) {
 		args = append(args, base.MakeKeyValue("zz:", base.VerifKindT(base.VkInt)))
 	}
 	shape := "r" + verifItoa(r) + "-o" + verifItoa(o) + "-rest" + verifItoa(rest) + "-p" + verifItoa(p) + "-kw" + verifItoa(kw) + "/npos" + verifItoa(np)
+	if ns > 0 {
+		shape += "/keywords-" + strings.ReplaceAll(kwNames[0]+kwNames[1], ":", "-")
+	}
 	verifapi.WitnessList("required", base.VerifKindNames(reqK)...)
 	verifapi.WitnessList("optional", base.VerifKindNames(optK)...)
 	verifapi.WitnessList("trailing", base.VerifKindNames(trailK)...)
